@@ -56,12 +56,14 @@ Definition advance (st:static) (s:state) (i:nat) : res state :=
   let x := s i in
   if tlt p (prog x) then Err (EBackwards i) else Ok (upd s i (mkSim (pc x) p (nexts x) (cur x) (last x) (newer x))).
 
+(* next_step_settled waits for the earliest queued step, but not beyond the end of the simulation *)
+Definition sleep_until (st:static) (i:nat) (m:time) : time := if tlt (until_t st i) m then until_t st i else m.
 Definition loop_eval (st:static) (s:state) (i:nat) : state :=
   let x := s i in
   if until st <=? thd (prog x) then upd s i (mkSim Done (prog x) (nexts x) (cur x) (last x) (newer x))
   else match tmin (nexts x) with
        | Some m => if teq m (prog x) then upd s i (mkSim (WaitDeps m) (prog x) (nexts x) (cur x) (last x) (newer x))
-                   else upd s i (mkSim (Sleep m) (prog x) (nexts x) (cur x) (last x) false)
+                   else upd s i (mkSim (Sleep (sleep_until st i m)) (prog x) (nexts x) (cur x) (last x) false)
        | None => upd s i (mkSim (Sleep (until_t st i)) (prog x) (nexts x) (cur x) (last x) false)
        end.
 Definition wake_sleepers (st:static) (s:state) : state :=
